@@ -11,6 +11,18 @@ open Storage PdfLex Xref
 
 variable {R : Type}
 
+theorem chLookup_mem {V : Type} : ∀ (ch : List (Nat × V × Nat)) (j : Nat) (x : V × Nat), chLookup ch j = some x → (j, x) ∈ ch := by
+  intro ch
+  induction ch with
+  | nil => intro j x h; simp [chLookup] at h
+  | cons c rest ih =>
+    obtain ⟨i, y⟩ := c
+    intro j x h
+    simp only [chLookup] at h
+    split at h
+    · rename_i heq; subst heq; simp only [Option.some.injEq] at h; subst h; simp
+    · exact List.mem_cons_of_mem _ (ih j x h)
+
 theorem chLookup_of_mem_sorted : ∀ (ch : List (Nat × Prim R × Nat)), Sorted ch → ∀ c ∈ ch, chLookup ch c.1 = some c.2 := by
   intro ch
   induction ch with
